@@ -15,7 +15,7 @@ from pedal.types.new_types import (Type, AnyType, ImpossibleType, FunctionType, 
                                    ClassType, InstanceType, BuiltinConstructorType, NumType, NoneType,
                                    LiteralValue, LiteralInt, LiteralFloat, LiteralStr, LiteralBool,
                                    TypeUnion, widen_type, widest_type, ModuleType)
-from pedal.types.new_types import is_subtype, specify_subtype
+from pedal.types.new_types import is_subtype, specify_subtype, reset_builtin_modules
 from pedal.types.normalize import get_pedal_type_from_value
 from pedal.types.builtin import get_builtin_name
 from pedal.types.operations import (VALID_UNARYOP_TYPES, apply_binary_operation, apply_unary_operation)
@@ -91,6 +91,9 @@ class Tifa(TifaCore, ast.NodeVisitor):
             ast_tree (AST): The AST object
         """
         self.reset()
+        # The types of the builtin modules are shared objects: what an earlier
+        # program wrote into them (math.pi = "three") must not be seen here
+        reset_builtin_modules()
         # Traverse every node
         self.visit(ast_tree)
 
